@@ -111,6 +111,7 @@ func report(prop, tier string, seed int64, hs []harnessRef, results []*interp.Ha
 	var normalPaths []string
 	for _, r := range results {
 		for k, v := range r.Violations {
+			v.Harness = r.Name
 			expect := "assert:" + v.Label
 			if v.Kind == "panic" {
 				expect = "panic"
